@@ -563,6 +563,10 @@ class Interp:
         need = any(has_kind(e, ("win", "agg")) for _, e in items)
         if not need:
             return [[ev(e, Env(rel.cols, r)) for _, e in items] for r in rel.rows]
+        if rel.okeys is None and getattr(rel, "pokeys", None) is not None and any(has_kind(e, ("win",)) for _, e in items):
+            # the order of the left input survives a right/full join only partially (padded rows have no
+            # position), so what an order-dependent window function sees there is not determined
+            raise Unspecified("window function over the partial order left by a right/full join")
         # partitioning: whole relation (ordered by rel.okeys) unless inside group
         n = len(rel.rows)
         idxs = list(range(n))
@@ -649,6 +653,10 @@ class Interp:
         covers_all = a0 == 0 and b0 >= n
         if not covers_all and b0 > a0:
             if rel.okeys is None:
+                if len(bag(rel.rows)) <= 1:
+                    # all rows identical (e.g. every column is a group key): any choice gives the same relation
+                    r = Rel(rel.cols, rel.rows[a0:b0], None)
+                    return _carry_cols(rel, r)
                 raise Unspecified("take on unordered relation")
             ks = rel.okeys
             if a0 > 0 and ks[a0 - 1] == ks[a0]:
